@@ -15,16 +15,17 @@ META = dict(
                "if none of the three log-replication markers (ack-from-diverged-log, old-term-commit, commit-without-quorum) occurs in the run, every entry committed by a leader of term t is in the log of every node that becomes "
                "leader later for a HIGHER term (Raft's Leader Completeness) - these three classes are the only ways the repaired raft.rs can lose a leader-committed entry to a leader of a higher term. "
                "The LITERAL statement of the property (every later leader, whatever its term) additionally needs the absence of a harmless situation - a stale candidate of an OLDER term collects delayed votes and becomes leader of that "
-               "older term after the commit (C29_partial_literal) - and C29_literal_refuted_by_late_leader shows (3 nodes, 26 events, none of the six classes) that this extra hypothesis cannot be dropped: the literal statement and the "
-               "harness oracle are stronger than Raft's property. The hypotheses are non-vacuous (fault-free 3-node history with leader commits). "
+               "older term after the commit (C29_partial_literal) - and C29_literal_refuted_by_late_leader shows (3 nodes, 26 events, none of the six classes) that this extra hypothesis cannot be dropped: the literal statement is "
+               "stronger than Raft's property (the oracles check the higher-term form). The hypotheses are non-vacuous (fault-free 3-node history with leader commits). "
                "The model carries the revision of the election code (C27): the check reads raft.rs and compares with the model of that revision; "
                "the refutations through the three log-replication classes are machine-checked for EVERY revision, the other three only before the C27 repairs - on a tree "
                "with the repairs their classes are no longer accepted as known findings. The model is tied to /repo on every run by comparing complete cluster states after every event of seeded adversarial event lists; "
                "a new leader missing a leader-committed entry in a history outside the listed classes is a VIOLATION.",
     design_ref="DESIGN.md §5 C29, C27–C30 common",
     level_note="The property is NOT a theorem of the code as it is (three open defect classes, known findings); what is proved is that nothing else can break it for leaders of higher terms. "
-               "The direct oracle of the harness checks the literal statement (every later leader): the late-leader-of-an-older-term history would be reported as an unclassified failure although it is harmless - "
-               "it has not been produced by the random search so far; restricting the oracle and the pinned full statement to leaders of higher terms is proposed in RAFT_NOTES.md. The one-node cluster is excluded.",
+               "The direct oracle of the harness and the model flag lc check Raft's Leader Completeness: a node that becomes leader of term t' holds every entry committed by a leader of a term t < t' "
+               "('later leader' = leader of a later term); the literal reading (any later leader) is violated by correct behaviour, documented by C29_literal_refuted_by_late_leader and by the regression case "
+               "corpus/C29/00_late_leader_older_term.txt, which runs first on every check and must produce no failure. The one-node cluster is excluded.",
 )
 
 
